@@ -43,3 +43,31 @@ func VerifC19Frame(v *verifrt.T) {
 	}
 	v.Observe("n", uint64(len(df)))
 }
+
+// VerifC19EncodeThreads: frames for different peers are encoded at the same time (every peer
+// has its own send-queue goroutine; survey answers are encoded on the mesh goroutine) and
+// share the encoder pool. Two threads each encode their own frame through the real
+// Frame.Encode, under every schedule within the preemption bound: each result decodes to the
+// thread's own messages, and no access to the pooled buffer races with the other thread's.
+func VerifC19EncodeThreads(v *verifrt.T) {
+	mk := func(tag string) Frame {
+		return Frame{Message{ID: ID(v.Bytes(2, tag+"id")), Channel: v.Bytes(1, tag+"ch"), Payload: v.Bytes(2, tag+"pay"), TTL: uint32(v.U8(tag + "ttl"))}}
+	}
+	fa, fb := mk("a"), mk("b")
+	var ea, eb []byte
+	v.Threads(v.Bound("preemptions"),
+		func() { ea = fa.Encode() },
+		func() { eb = fb.Encode() },
+	)
+	v.Reach("encoded-concurrently")
+	for _, x := range []struct {
+		enc []byte
+		f   Frame
+	}{{ea, fa}, {eb, fb}} {
+		d, err := DecodeFrame(x.enc)
+		v.Assert(err == nil && len(d) == 1, "C19.frame.concurrent-encode-decodes")
+		if err == nil && len(d) == 1 {
+			v.Assert(c15same(d[0].ID, x.f[0].ID) && c15same(d[0].Channel, x.f[0].Channel) && c15same(d[0].Payload, x.f[0].Payload) && d[0].TTL == x.f[0].TTL, "C19.frame.concurrent-encode-own-messages")
+		}
+	}
+}
